@@ -14,6 +14,12 @@ import (
 
 const margin = 45
 
+// effMs: effective timeout (ms, rounded down) of the timeout field of a b token, for planning only
+func effMs(btok string) int {
+	raw, _ := parseTmo(btok[strings.LastIndex(btok, ".")+1:])
+	return int(effTimeout(raw) / 1000000)
+}
+
 type gping struct {
 	p        int
 	deadline int
@@ -28,7 +34,7 @@ type gen struct {
 	vt    int
 	pings []*gping
 	nextP int
-	tmo   []int
+	tmo   []string
 	nvar  map[string]int
 	class string
 }
@@ -86,15 +92,13 @@ func (g *gen) btok(mode byte) (string, *gping) {
 		q.done = true
 	}
 	g.pings = append(g.pings, q)
-	return fmt.Sprintf("%s.%d.%c.%d", fam, p, mode, ms), q
+	return fmt.Sprintf("%s.%d.%c.%s", fam, p, mode, ms), q
 }
 
 func (g *gen) begin(mode byte) {
 	g.settle()
 	t, q := g.btok(mode)
-	var ms int
-	fmt.Sscanf(t[strings.LastIndex(t, ".")+1:], "%d", &ms)
-	q.deadline = g.vt + ms
+	q.deadline = g.vt + effMs(t)
 	g.emit(t)
 }
 
@@ -107,9 +111,7 @@ func (g *gen) par(n int) {
 			mode = 'w'
 		}
 		t, q := g.btok(mode)
-		var ms int
-		fmt.Sscanf(t[strings.LastIndex(t, ".")+1:], "%d", &ms)
-		q.deadline = g.vt + ms
+		q.deadline = g.vt + effMs(t)
 		ts = append(ts, t)
 	}
 	g.vt += 2
@@ -122,13 +124,20 @@ var defectVariant = map[string]bool{"hdr4": true, "hdr6": true, "fam4": true, "f
 // goroutine started from WriteTo
 func (g *gen) beginAnswered() {
 	g.settle()
+	// a call answered inside its send never waits: here the whole timeout domain is exercised
+	saved := g.tmo
+	asy := g.rng.Chance(30)
+	if !asy {
+		g.tmo = []string{"0", "-1", "-5000", "n1", "1", "150", "2000", "10000", "10001", "n10000000001", "huge"}
+	} else { // the goroutine races the timer: no tiny timeouts here
+		g.tmo = []string{"150", "300", "800", "0", "-2", "10001"}
+	}
 	t, q := g.btok('g')
-	var ms int
-	fmt.Sscanf(t[strings.LastIndex(t, ".")+1:], "%d", &ms)
-	q.deadline = g.vt + ms
+	g.tmo = saved
+	q.deadline = g.vt + effMs(t)
 	f := strings.Split(t, ".")
-	wantWake := g.rng.Chance(70)
-	if g.rng.Chance(30) { // asynchronous delivery right after WriteTo
+	wantWake := g.rng.Chance(70) || effMs(t) >= 1000
+	if asy { // asynchronous delivery right after WriteTo
 		g.emit("asy:" + t + "|" + g.ftok(q, wantWake))
 		g.vt += 2
 		return
@@ -137,6 +146,14 @@ func (g *gen) beginAnswered() {
 	for n := 1 + g.rng.Intn(2); n > 0; n-- {
 		g.emit(g.ftok(q, wantWake))
 		wantWake = g.rng.Bool()
+	}
+	if !q.replied && effMs(t) >= 1000 { // never wait out a default
+		name := "rep4"
+		if f[0] == "b6" {
+			name = "rep6"
+		}
+		g.emit(fmt.Sprintf("f.%s.%d.0.%d", name, q.p, g.rng.Intn(1000)))
+		q.replied = true
 	}
 	if g.rng.Chance(20) { // the write fails after the reply was delivered
 		g.emit("z." + f[1] + ".F")
@@ -206,9 +223,10 @@ func genScenario(rng *lib.Rand, class string, nvar map[string]int) scenario {
 	}
 	switch class {
 	case "fast": // every call is answered: no real waiting
-		g.tmo = []int{400, 600, 800}
+		// every call of this class is answered: defaults (0, negative, > 10 s, huge) cost no waiting
+		g.tmo = []string{"400", "600", "800", "0", "-3", "10000", "10001", "huge"}
 	default:
-		g.tmo = []int{60, 110, 160, 220, 300}
+		g.tmo = []string{"60", "110", "160", "220", "300", "n1", "1", "2"}
 	}
 	np := 1 + rng.Intn(6)
 	steps := 4 + rng.Intn(14)
@@ -289,6 +307,26 @@ func generate(r *lib.Run, rng *lib.Rand) []scenario {
 	// (compared against the model through the compressed event x.65535 = BulkFail 65535)
 	scs = append(scs, scenario{next0: 40000, class: "wrap", toks: strings.Fields(
 		"b4.0.g.5000 s x.65535 s b6.1.g.5000 s f.rep4.0.0.3 s w.1 s w.0 s")})
+	// the timeout ARGUMENT domain, Ping and Ping6: answered inside the send (nil at once whatever the
+	// argument: 0, negative, 1 ns, typical, exactly 10 s, just above, huge) ...
+	sweep := []string{"0", "-1", "-5000", "n1", "1", "150", "10000", "n10000000001", "10001", "huge"}
+	for fam, rep := range map[string]string{"4": "rep4", "6": "rep6"} {
+		var t []string
+		for i, tm := range sweep {
+			t = append(t, fmt.Sprintf("q%s.%d.%s", fam, i, tm), fmt.Sprintf("f.%s.%d.0.%d", rep, i, i), fmt.Sprintf("z.%d.T", i), "s", fmt.Sprintf("w.%d", i))
+		}
+		scs = append(scs, scenario{next0: 100, class: "tmo", toks: append(t, "s")})
+	}
+	// ... and unanswered with the smallest positive values: ErrTimeout at once, never early
+	scs = append(scs, scenario{next0: 200, class: "tmo", toks: strings.Fields(
+		"b4.0.g.n1 w.0 s b6.1.g.n1 w.1 s b4.2.g.1 w.2 b6.3.g.2 w.3 s par:b4.4.g.n1|b6.5.g.1|b4.6.g.n2 w.4 w.5 w.6 s f.rep4.0.0.1 f.rep6.1.0.1 s")})
+	if r.Thorough() { // the 2 s default is waited out only here
+		for i, tm := range []string{"0", "-1", "10001", "huge"} {
+			fam := []string{"b4", "b6"}[i%2]
+			scs = append(scs, scenario{next0: uint16(300 + i), class: "tmo", toks: strings.Fields(
+				fmt.Sprintf("%s.0.g.%s s f.req4.0.0.1 s w.0 s", fam, tm))})
+		}
+	}
 	// the identifier of a call that was answered inside its send is handed to a newer call before the
 	// older one returns (send succeeds / send fails): the older call must not delete the newer entry
 	scs = append(scs, scenario{next0: 40000, class: "wrap", toks: strings.Fields(
